@@ -32,12 +32,44 @@ def _module_mutables(tree):
         if _is_mutable_ctor(val):
             for t in targets:
                 mutables[t.id] = type(val).__name__ if not isinstance(val, ast.Call) else 'Call:' + (val.func.attr if isinstance(val.func, ast.Attribute) else getattr(val.func, 'id', '?'))
+    # a module-level name that some function re-binds (`global NAME` + assignment) is shared state whatever it holds
+    for func in [n for n in ast.walk(tree) if isinstance(n, (ast.FunctionDef, ast.AsyncFunctionDef))]:
+        for n in ast.walk(func):
+            if isinstance(n, (ast.Global, ast.Nonlocal)):
+                for nm in n.names:
+                    mutables.setdefault(nm, 'global-rebind')
     return mutables
+
+HARMLESS_DECORATORS = {'staticmethod', 'classmethod', 'property', 'dataclass', 'abstractmethod', 'overload', 'wraps', 'total_ordering', 'final'}
+
+def _function_state(mod, tree):
+    """state that hides in function objects: memoising/unknown decorators, mutable default arguments, attributes stored on functions or classes"""
+    out = {}
+    top = {n.name for n in tree.body if isinstance(n, (ast.FunctionDef, ast.ClassDef))}
+    for func in [n for n in ast.walk(tree) if isinstance(n, (ast.FunctionDef, ast.AsyncFunctionDef))]:
+        for d in func.decorator_list:
+            base = d.func if isinstance(d, ast.Call) else d
+            name = base.attr if isinstance(base, ast.Attribute) else getattr(base, 'id', '?')
+            if name not in HARMLESS_DECORATORS and not name.endswith('setter'):
+                out[f'{mod}:{func.name}@{name}'] = 'decorator'
+        a = func.args
+        for dflt in list(a.defaults) + [x for x in a.kw_defaults if x is not None]:
+            if _is_mutable_ctor(dflt):
+                out[f'{mod}:{func.name}(default {ast.unparse(dflt)[:40]})'] = 'mutable-default'
+    for n in ast.walk(tree):
+        if isinstance(n, (ast.Assign, ast.AugAssign)):
+            for t in (n.targets if isinstance(n, ast.Assign) else [n.target]):
+                base = t
+                while isinstance(base, ast.Subscript):
+                    base = base.value
+                if isinstance(base, ast.Attribute) and isinstance(base.value, ast.Name) and (base.value.id in top or base.value.id in ('cls', '__class__')):
+                    out[f'{mod}:{base.value.id}.{base.attr}'] = 'attribute-on-function-or-class'
+    return out
 
 def static_inventory(repo=REPO):
     """every module-level mutable object, with the functions (in any module) that reference it and how; every instance
     attribute that is written outside __init__"""
-    inv = {'module_objects': {}, 'instance_state': {}, '_lines': {}}
+    inv = {'module_objects': {}, 'instance_state': {}, 'function_state': {}, '_lines': {}}
     root = os.path.join(repo, 'a5')
     trees = {}
     for dp, _, fns in sorted(os.walk(root)):
@@ -50,6 +82,9 @@ def static_inventory(repo=REPO):
                 except SyntaxError as e:
                     inv['module_objects'][mod + ':<syntax error>'] = {'kind': 'error', 'uses': [str(e)]}
     owned = {mod: _module_mutables(t) for mod, t in trees.items()}
+    for mod, t in trees.items():
+        inv['function_state'].update(_function_state(mod, t))
+    inv['function_state'] = dict(sorted(inv['function_state'].items()))
     short = {}
     for mod in owned:
         short[mod.split('.')[-1]] = mod
@@ -123,6 +158,8 @@ def static_inventory(repo=REPO):
 
 def _usage_kind(func, name_node):
     """how a function uses a module-level mutable: 'write' (subscript/attr store, augmented assign, out-parameter, mutating method) or 'read'"""
+    if isinstance(getattr(name_node, 'ctx', None), ast.Store):
+        return 'write(rebind)'
     for n in ast.walk(func):
         if isinstance(n, ast.Call):
             # out-parameter convention of vec2/vec3/quat: first positional argument is written
@@ -425,7 +462,19 @@ def directed_pairs(rng, ref_inventory, per_fn=4):
     for h, cs in reach.items():
         if not cs:
             continue
-        pick = rng.sample(cs, min(per_fn, len(cs)))
+        # stratified by call kind and resolution class (coarse cells mask or expose different things than fine ones)
+        def bucket(c):
+            r = c[1][1] if c[0] == 'lonlat_to_cell' else None
+            return (c[0], None if r is None else (0 if r <= 1 else (1 if r <= 8 else 2)))
+        groups = {}
+        for c in cs:
+            groups.setdefault(bucket(c), []).append(c)
+        pick = []
+        keys = sorted(groups, key=str)
+        while len(pick) < min(per_fn, len(cs)):
+            for kx in keys:
+                if groups[kx] and len(pick) < per_fn:
+                    pick.append(groups[kx].pop(rng.randrange(len(groups[kx]))))
         for i, a in enumerate(pick):
             for b in pick[i + 1:]:
                 pairs.append((a, b)); pairs.append((b, a))
@@ -469,7 +518,7 @@ def cold_reset(mods):
     cellmod = mods['a5.core.cell']
     cellmod._dodecahedron = type(cellmod._dodecahedron)()
 
-def preemption_search(rng, pairs, max_points, a5=None, hot=None, only_hot=False, stop_after=None):
+def preemption_search(rng, pairs, max_points, a5=None, hot=None, only_hot=False, stop_after=None, warm=False):
     """for API calls A and B: run A under sys.settrace; at the k-th line event inside the library run B to completion
     (a context switch at that line boundary), then let A finish; A's result must equal its undisturbed result.
     Every k up to max_points per pair (systematic, context bound 2)."""
@@ -523,6 +572,12 @@ def preemption_search(rng, pairs, max_points, a5=None, hot=None, only_hot=False,
                     f = f.f_back; depth += 1
             return counter
         cold_reset(mods)
+        if warm:
+            # the caller has just made the same call (batches of nearby points): whatever A leaves behind is in place when A runs again
+            try:
+                call(a5, *A)
+            except Exception:
+                pass
         sys.settrace(counter)
         try:
             call(a5, *A)
@@ -557,6 +612,11 @@ def preemption_search(rng, pairs, max_points, a5=None, hot=None, only_hot=False,
                         sys.settrace(tracer)
                 return tracer
             cold_reset(mods)
+            if warm:
+                try:
+                    call(a5, *A)
+                except Exception:
+                    pass
             sys.settrace(tracer)
             try:
                 try:
@@ -567,9 +627,9 @@ def preemption_search(rng, pairs, max_points, a5=None, hot=None, only_hot=False,
                 sys.settrace(None)
             stats['preemption_points'] += 1
             if errA or resA != refA or state['berr'] or (state['bres'] is not None and state['bres'] != refB):
-                what = (f'{A[0]}{A[1]!r} interrupted at its line event {k}/{total} by {B[0]}{B[1]!r}: '
+                what = (('after the same call was made once, ' if warm else '') + f'{A[0]}{A[1]!r} interrupted at its line event {k}/{total} by {B[0]}{B[1]!r}: '
                         + (f'raises {errA}' if errA else ('returns a different value' if resA != refA else f'the interrupting call {"raises " + state["berr"] if state["berr"] else "returns a different value"}')))
-                fails.append({'what': what, 'A': A, 'B': B, 'k': k})
+                fails.append({'what': what, 'A': A, 'B': B, 'k': k, 'warm': warm})
                 break
         if stop_after and len(fails) >= stop_after:
             break
